@@ -169,6 +169,20 @@ def run(tier, seed):
                                  'not the commitment of its ids' % (name, [x[0] for x in seq[:[x[0] for x in seq].index(name)]]),
                                  {'sequence': [[nm, [t.serialize().hex() for t in l_]] for nm, l_ in seq], 'at': name})
                     break
+                if name == 'base' and n >= 1:
+                    # the SAME transaction objects, one of them altered in place after its id was used (reward data rolled,
+                    # an output value changed): the commitment follows the content
+                    alt = list(txs)
+                    try:
+                        alt[-1].outputs[0].value = alt[-1].outputs[0].value + 1
+                        want_ids = [spec.sha256d(t.serialize()) for t in alt]
+                        if C.calc_merkle_root_hash(alt) != MT.get_merkle_root(want_ids):
+                            ck.violation('validator-root-stale-object', 'calc_merkle_root_hash over transaction objects one of '
+                                         'which was altered in place after its id had been used is not the commitment of the '
+                                         'ids of what the list now encodes to', {'at': 'object-altered-in-place'})
+                        alt[-1].outputs[0].value = alt[-1].outputs[0].value - 1
+                    except AttributeError:
+                        pass
                 if name == 'inplace-before':
                     inplace.append(gen.g_tx(rng, nin=1, nout=1))
                     if C.calc_merkle_root_hash(inplace) != MT.get_merkle_root(ids + [spec.sha256d(inplace[-1].serialize())]):
